@@ -172,7 +172,14 @@ func (l *listener) handle(conn net.Conn) {
 
 	buf := bufPool.Get().([]byte)
 	buf = buf[:0]
-	defer bufPool.Put(buf)
+	defer func() {
+		// a hijacked connection still replays prefetched bytes from this buffer
+		// when the wrapped listener's consumer reads from it: it must not be
+		// given to another connection
+		if !errors.Is(err, errHijacked) {
+			bufPool.Put(buf)
+		}
+	}()
 
 	cx := WrapConnection(conn, buf, l.logger)
 	cx.Context = context.WithValue(cx.Context, listenerCtxKey, l)
